@@ -237,7 +237,7 @@ package drpcwire
 // "gid"/"gpkt" are ghost copies of the reader id and the partial packet taken at the loop head.
 //@ func (*Reader).ReadPacketUsing
 //@   mode int
-//@   props C09 C13 C05 C02
+//@   props C09 C13 C05 C02 C18
 //@   requires readerInv(r)
 //@   requires arr(buf) == 0 || (arr(buf) != arr(r.buf) && arr(buf) != arr(r.curr))
 //@   modifies memcap(buf), memcap(r.buf), r.curr, r.buf, r.id, r.rerr
@@ -338,6 +338,7 @@ package drpcwire
 //@   ensures [nonnil] result != nil
 //@   ensures [code]   len(data) >= 8 ==> chainCode(result) == be64(data)
 //@   ensures [short]  len(data) < 8 ==> chainCode(result) == 0
+//@   ensures [C10.text] len(data) >= 8 ==> bytesEq(methodStr(result, "Error"), data[8:])
 
 // Set once by NewWriter, never assigned again (checked by a scan of every function of the package).
 //@ immutable Writer.w
